@@ -101,9 +101,18 @@ Definition cli_view (show : bool) (l : list diag) : list diag :=
 Definition cli_model (c : ccase) : list diag :=
   let dirs := cli_dirs c in
   cli_view (c_show c) (filter_ignored (c_base c) dirs (c_allowed c) ++ map fst (filter (u_kept dirs) (c_u c))).
-Definition cli_spec (c : ccase) : list diag :=
+(* does directive d make some U1000 problem of the base report disappear? (then it "suppresses something") *)
+Definition u_effect (c : ccase) (d : sdir) : bool := existsb (fun e => u1000_ignored [d] (d_pos (fst e))) (c_u c).
+Definition spec_unmatched (c : ccase) (dirs : list sdir) (only_required : bool) : list diag :=
+  flat_map (fun d => if must_report_b (c_allowed c) (c_base c) d && negb (only_required && u_effect c d)
+                     then [unmatched_diag (sd_dpos d)] else []) dirs.
+(* required = what the property demands; allowed = required + reports for directives whose only effect was on U1000
+   (lintcmd cannot see that effect and the property does not forbid the report) *)
+Definition cli_spec (c : ccase) (only_required : bool) : list diag :=
   let dirs := cli_dirs c in
-  cli_view (c_show c) (spec_main (c_base c) dirs ++ spec_extras (c_base c) dirs (c_allowed c) ++ map fst (filter (u_kept dirs) (c_u c))).
+  cli_view (c_show c) (spec_main (c_base c) dirs ++
+                       flat_map (fun d => if malformed_b d then [malformed_diag d] else []) dirs ++
+                       spec_unmatched c dirs only_required ++ map fst (filter (u_kept dirs) (c_u c))).
 Definition in_class_c (c : ccase) : bool :=
   forallb (fun d => forallb simple_glob (dir_names d)) (cli_dirs c) &&
   forallb (fun d => simple_subject (d_cat d)) (c_base c) &&
@@ -111,12 +120,11 @@ Definition in_class_c (c : ccase) : bool :=
 
 Definition c_mismatch (c : ccase) : bool :=
   let m := cli_model c in
-  negb (Nat.eqb (length m) (List.length (c_out c)) && match msub diag_eqb m (c_out c) with [] => true | _ => false end).
+  negb (Nat.eqb (List.length m) (List.length (c_out c)) && match msub diag_eqb m (c_out c) with [] => true | _ => false end).
 Definition cli_eqb (a b : diag) : bool :=
   pos_eqb (d_pos a) (d_pos b) && String.eqb (d_cat a) (d_cat b) && sev_eqb (d_sev a) (d_sev b).
 Definition c_violation (c : ccase) : list vio :=
-  let s := cli_spec c in
-  map (mk_vio 6) (msub cli_eqb s (c_out c)) ++ map (mk_vio 7) (msub cli_eqb (c_out c) s).
+  map (mk_vio 6) (msub cli_eqb (cli_spec c true) (c_out c)) ++ map (mk_vio 7) (msub cli_eqb (c_out c) (cli_spec c false)).
 
 (* ------------------------------------------------------------------ drivers *)
 Definition numbered_b {A} (f : A -> bool) (l : list A) : list nat :=
